@@ -63,7 +63,7 @@ partial def parseRanges (np : Nat) (toks : List String) : List (List (Combo × U
     let rec take (k : Nat) (ts : List String) (acc : List (Combo × UInt32)) : List (Combo × UInt32) × List String :=
       if k == 0 then (acc.reverse, ts) else
       match ts with
-      | c :: w :: ts' => take (k - 1) ts' ((Combo.ofCode c.toNat!, w.toNat!.toUInt32) :: acc)
+      | c :: w :: ts' => take (k - 1) ts' ((Combo.ofCode c.toNat!, (let b := w.toNat!.toUInt32; if b == 0x80000000 then 0 else b)) :: acc)
       | _ => (acc.reverse, [])
     let (es, rest') := take k rest []
     es :: parseRanges (np - 1) rest'
